@@ -12,6 +12,7 @@ RULE = ('Exhaustive box over (N, batch_size, buckets) [quick: N<=16,B<=18,k<=5; 
         'random larger points (N<=300,B<=130,k<=9; quick 400, thorough 20000 points); every point runs batch(), batch(drop_remainder) and padded_batch() '
         'with a random feature set and preprocessor chain. Non-trivial: N%B!=0 with buckets>=2, or N==0, or N a '
         'multiple of B; distinct by (N,B,buckets,feature names,chain).')
+RULE += (' Wave-4 addition: the padded batches of every case are held while a second dataset of the same layout/row count but other values is batched, then re-compared bit for bit.')
 ASSUMPTIONS = [
     'generated batch preprocessors are strictly per-example (commute with slicing), as the docs require',
     'icontract postconditions on _pick_final_batch_size / pad_examples attach through the module attribute',
